@@ -146,7 +146,7 @@ func (tr *Tr) staticCall(fr *frame, callee *ssa.Function, args []Val, bindings [
 		return Val{Ty: rt}
 	}
 	if c := tr.G.contracts.Funcs[name]; c != nil && !c.Inline && tr.pure == 0 {
-		return tr.applyContract(fr, callee, c, args, rt, pos)
+		return tr.applyContract(fr, callee, c, args, rt, pos, cc)
 	}
 	if tr.canInline(fr, callee) {
 		return tr.inline(fr, callee, args, bindings, rt, pos)
@@ -290,7 +290,7 @@ func paramNames(callee *ssa.Function, c *Contract) []string {
 	return ns
 }
 
-func (tr *Tr) applyContract(fr *frame, callee *ssa.Function, c *Contract, args []Val, rt types.Type, pos token.Pos) Val {
+func (tr *Tr) applyContract(fr *frame, callee *ssa.Function, c *Contract, args []Val, rt types.Type, pos token.Pos, cc *ssa.CallCommon) Val {
 	tr.vc.UsedContr[c.Full] = true
 	names := map[string]Val{}
 	for i, n := range paramNames(callee, c) {
@@ -365,6 +365,11 @@ func (tr *Tr) applyContract(fr *frame, callee *ssa.Function, c *Contract, args [
 			tr.freshHeapAbove(fr, oldA, newA)
 			fr.heap.m["ALLOC"] = newA
 		}
+	}
+	// callbacks: `calls h` — the callee may invoke its function argument h (at most once); the
+	// names ran_h (did it run) and res_h (its result) are available to the ensures clauses
+	for _, hn := range c.Calls {
+		tr.callback(fr, callee, c, hn, args, names, pos, cc)
 	}
 	res := tr.freshResult(fr, rt, "ret_"+sc)
 	post := &specEnv{tr: tr, pkg: pkg, names: names, heap: fr.heap, old: pre, oldA: preA, curA: tr.curA(fr)}
@@ -976,4 +981,66 @@ func (tr *Tr) contractModKeys(c *Contract, callee *ssa.Function, out map[string]
 			out[k] = true
 		}
 	}()
+}
+
+// callback models "the callee may run its function argument hn once, on arbitrary well-formed
+// arguments". With a closure created in the calling function the closure is executed (by its
+// contract or inlined) under the fresh condition ran_hn; otherwise everything is havoc'd.
+func (tr *Tr) callback(fr *frame, callee *ssa.Function, c *Contract, hn string, args []Val, names map[string]Val, pos token.Pos, cc *ssa.CallCommon) {
+	idx := -1
+	for i, n := range paramNames(callee, c) {
+		if n == hn {
+			idx = i
+		}
+	}
+	if idx < 0 || idx >= len(args) {
+		vfail("contract of %s: calls %s: no such parameter", c.Key, hn)
+	}
+	ran := tr.declareConst("Bool", "ran_"+hn)
+	names["ran_"+hn] = Val{T: ran, Ty: tBool}
+	var ci *closureInfo
+	if cc != nil && idx < len(cc.Args) {
+		ci = fr.closures[cc.Args[idx]]
+	}
+	sig, ok := args[idx].Ty.Underlying().(*types.Signature)
+	if !ok {
+		vfail("contract of %s: calls %s: not a function parameter", c.Key, hn)
+	}
+	var rt types.Type = sig.Results()
+	if sig.Results().Len() == 1 {
+		rt = sig.Results().At(0).Type()
+	}
+	if ci == nil {
+		// unknown function value: it may do anything to the heap it can reach
+		tr.vc.Unknown["callback "+hn+" of "+shortFuncName(callee)]++
+		r := tr.havocCall(fr, nil, rt, true)
+		names["res_"+hn] = r
+		return
+	}
+	saveReach := fr.curReach
+	before := fr.heap.clone()
+	fr.curReach = tr.define("Bool", and(saveReach, ran, not(eq(args[idx].T, "0"))), "cb_reach")
+	var cargs []Val
+	for i := 0; i < sig.Params().Len(); i++ {
+		v := tr.freshResult(fr, sig.Params().At(i).Type(), "cbarg")
+		for _, nn := range c.CallsNonNil {
+			if nn == hn {
+				if _, isIface := v.Ty.Underlying().(*types.Interface); isIface {
+					tr.assume(fr.curReach, not(eq(app("i.typ", v.T), "0")))
+				} else if refLike(v.Ty) {
+					tr.assume(fr.curReach, not(eq(v.T, "0")))
+				}
+			}
+		}
+		cargs = append(cargs, v)
+	}
+	r := tr.staticCall(fr, ci.fn, cargs, ci.bindings, rt, pos, nil)
+	after := fr.heap
+	hs := map[*ssa.BasicBlock]*Heap{}
+	b1, b2 := &ssa.BasicBlock{Index: -1}, &ssa.BasicBlock{Index: -2}
+	hs[b1], hs[b2] = after, before
+	tmp := &frame{heapEnd: hs}
+	fr.heap = tr.mergeHeaps(tmp, []inEdge{{b1, and(ran, not(eq(args[idx].T, "0")))}, {b2, "true"}})
+	fr.curReach = saveReach
+	names["res_"+hn] = r
 }
